@@ -148,6 +148,9 @@ structure Frame where
   getMiss : Nat := 0
   cantCache : Bool := false
   numSet : Nat := 0
+  /-- `localFunc`: this function frame, or a frame of the same function it is parented to (recursion), holds a function
+  in a local binding (it shadows, for the recursive calls made from here, the top level function of that name) -/
+  localFunc : Bool := false
   deriving Inhabited
 
 /-- why evaluation stopped abnormally: a Go panic (with the site), or the model ran out of
